@@ -296,6 +296,54 @@ class Retention(Unit):
         yield "C09", "results-decoded-earlier-are-not-changed-by-later-decodes%s" % (" (%s)" % "; ".join(changed[:2]) if changed else ""), not changed
 
 
+class SharedArguments(Unit):
+    """two threads, each building its own command -- from the SAME parameter dictionaries (one request description handed
+    to two workers): what either builds is what it builds alone.  Thread A is preempted once, at each line boundary of
+    the library in turn, and thread B builds its command to completion there (preemption bound 1)."""
+
+    name = "isolation/shared-argument-objects"
+    properties = ("C09",)
+    level = "bounded"
+    witness = False
+    native_timeout = 0
+    bound_note = "EXTENDED COPY LID1 and LID4 with one CSCD and one segment descriptor given by name; one preemption of thread A at every line boundary in turn, thread B runs to completion there; concrete native runs"
+
+    def cases(self, tier):
+        return [{"cmd": k} for k in sorted(structured_builders())]
+
+    def case_id(self, case):
+        return case["cmd"]
+
+    def run(self, X, case, a):
+        import contextlib
+        import io
+
+        build = structured_builders()[case["cmd"]]
+        with contextlib.redirect_stdout(io.StringIO()):
+            alone = build()
+            _, lines = interleaved(lambda: build(), lambda: None, only_at=-1)
+            bad = []
+            for k in range(lines):
+                shared = build.args()
+                box = {}
+
+                def run_b():
+                    box["b"] = build(shared)
+
+                got_a, _ = interleaved(lambda: build(shared), run_b, only_at=k)
+                if got_a != alone or box.get("b") != alone:
+                    bad.append("switch at line boundary %d: A %s, B %s" % (k, "as alone" if got_a == alone else "differs", "as alone" if box.get("b") == alone else "differs"))
+        return lines, bad
+
+    def ensures(self, case, a, out, X):
+        if out.kind != "return":
+            yield "C09", "schedules-run (raised %s: %s)" % (type(out.exc).__name__, str(out.exc)[:80]), False
+            return
+        lines, bad = out.value
+        yield "C09", "schedules-explored", lines > 20
+        yield "C09", "both-threads-build-what-they-build-alone-from-shared-parameter-dictionaries%s" % (" (%s)" % "; ".join(bad[:2]) if bad else ""), not bad
+
+
 # ------------------------------------------------------------------------------------------ (3) pairs
 
 
@@ -383,6 +431,7 @@ class Pairs(Unit):
 register(PackageScan())
 register(DecodeDeterminism())
 register(Retention())
+register(SharedArguments())
 register(Pairs())
 
 
@@ -737,17 +786,22 @@ def structured_builders():
         src, dst = ("source_cscd_descriptor_id", "destination_cscd_descriptor_id") if lid4 else ("source_target_descriptor_id", "destination_target_descriptor_id")
         tname = "Identification Descriptor CSCD descriptor" if lid4 else "Identification descriptor target descriptor"
 
-        def build():
+        def args():
             t = {"descriptor_type_code": tname, "peripheral_device_type": "Direct access block device (e.g., magnetic disk)",
                  tkey: {"code_set": 1, "association": 0, "designator_type": 3, "designator_length": 16,
                         "designator": {"naa": 6, "ieee_company_id": 0x123456, "vendor_specific_identifier": 0x789ABC, "vendor_specific_identifier_extension": 5}},
                  "device_type_specific_parameters": {"disk_block_length": 512}}
             sg = {"descriptor_type_code": "Copy from block device to block device", "dc": 1, src: 0, dst: 0, "block_device_number_of_blocks": 4,
                   "source_block_device_logical_block_address": 16, "destination_block_device_logical_block_address": 32}
+            return t, sg
+
+        def build(shared=None):
+            t, sg = shared if shared is not None else args()
             op = C.find_opcode("spc", ("name", "EXTENDED_COPY"))
             cmd = K(op, 0, 0, 0, 0, 0, 0, [t], [sg], bytearray()) if lid4 else K(op, 0, 0, 0, 0, [t], [sg], bytearray())
             return binascii.hexlify(bytes(cmd.cdb)).decode() + "/" + binascii.hexlify(bytes(cmd.dataout)).decode()
 
+        build.args = args
         return build
 
     out = {"ExtendedCopy4": xcopy(False), "ExtendedCopy5": xcopy(True)}
